@@ -28,6 +28,14 @@ Trusted vocabulary (external code, not translated):
   (`L.writeAllAux`); `ErrorKind::Interrupted` is not among the modelled kinds.
   `crc32fast::Hasher::{new, update, finalize, clone}` = the raw CRC-32 register of `Spec.Crc32`
   (`Crc32Hasher`).
+  `impl Write for &mut [u8]` (`write_all` on a temporary view) = `L.sliceWriteAll`.
+
+Loops: `for b in xs.iter_mut()` = `L.iterMut`, `for (a, b) in xs.iter_mut().zip(ys.iter())` = `L.iterMutZip`,
+`while c { … }` = `L.whileLoop` with fuel (out of fuel = panic; the Tie shows the fuel adequate).  A panic
+inside a loop body leaves the function with the values the variables had BEFORE the loop (the state after a
+panic is not observable).  A `mut x: &mut [u8]` parameter is a VIEW into the caller's buffer that the body may
+shorten from the front (`x = &mut x[n..]`, `L.splitAt`): `x` is the view, `x'` what was left behind, and the
+caller's buffer at every exit is `x' ++ x`.
 -/
 
 namespace Rs
@@ -44,6 +52,11 @@ inductive IoRes (α : Type) where
 def IoRes.fail {α β : Type} : IoRes α → IoRes β
   | .err e => .err e
   | _ => .panic
+
+/-- `r.unwrap()` / `r.expect(msg)` -/
+def IoRes.unwrap {α : Type} : IoRes α → Option α
+  | .ok a => some a
+  | _ => none
 
 /-- What one `read` call of an inner reader delivered. -/
 inductive RdRes where
@@ -166,6 +179,42 @@ def iterMut {σ : Type} (xs : Bytes) (st : σ) (f : σ → UInt8 → Option (UIn
       match iterMut bs st' f with
       | none => none
       | some (bs', st'') => some (b' :: bs', st'')
+
+/-- `for (a, b) in xs.iter_mut().zip(ys.iter()) { body }`: stops with the shorter of the two; the body may
+assign `*a` and the loop-carried variables `st`. -/
+def iterMutZip {σ : Type} (xs ys : Bytes) (st : σ) (f : σ → UInt8 → UInt8 → Option (UInt8 × σ)) : Option (Bytes × σ) :=
+  match xs, ys with
+  | [], _ => some ([], st)
+  | b :: bs, [] => some (b :: bs, st)
+  | b :: bs, c :: cs =>
+    match f st b c with
+    | none => none
+    | some (b', st') =>
+      match iterMutZip bs cs st' f with
+      | none => none
+      | some (bs', st'') => some (b' :: bs', st'')
+
+/-- `while cond { body }` over the loop-carried variables `st`; a panic in the body is a panic of the loop.
+Running out of fuel is a panic too: a Tie proof has to show the generated fuel adequate. -/
+def whileLoop {σ : Type} : Nat → σ → (σ → Bool) → (σ → Option σ) → Option σ
+  | 0, _, _, _ => none
+  | fuel + 1, st, cond, body =>
+    if cond st then
+      match body st with
+      | none => none
+      | some st' => whileLoop fuel st' cond body
+    else some st
+
+/-- `x = &mut x[n..]` on a `mut x: &mut [u8]` parameter: the bytes left behind and the new view
+(`n > x.len()` panics) -/
+def splitAt (bs : Bytes) (n : UInt64) : Option (Bytes × Bytes) :=
+  if n.toNat ≤ bs.length then some (bs.take n.toNat, bs.drop n.toNat) else none
+
+/-- `Write for &mut [u8]`, `write_all(data)` on a temporary view of `buf` (`buf.as_mut().write_…`): the
+front of `buf` is overwritten; data that does not fit is `WriteZero` after the part that fits was copied. -/
+def sliceWriteAll (buf data : Bytes) : IoRes Unit × Bytes :=
+  if data.length ≤ buf.length then (.ok (), data ++ buf.drop data.length)
+  else (.err .writeZero, data.take buf.length)
 
 /-- `opt.ok_or_else(|| err)` -/
 def okOr {α : Type} (o : Option α) (e : ZipVerif.IoKind) : IoRes α :=
